@@ -158,60 +158,70 @@ Proof. exact initial_token_total. Qed.
 Print Assumptions ambient_token_total.
 
 (* ------------------------------------------------------------------------------------------------------------------------------
-   DateTime.diff(other) / diff_for_humans(other) end to end (Model/DiffHumans.v): Interval's ordering of the endpoints, the fold-less
-   native rebuild of Interval.__init__, precise_diff (translated pure-Python helper / hand model of the compiled one, shared with C06),
-   the component properties, then `format`.  The correspondence run compares components, invert and phrase with both backends on pairs
-   of instants in one zone and in two zones (streams `instants`, `instants-xz`). *)
+   DateTime.diff(other) / diff_for_humans(other) end to end (Model/DiffHumans.v): Interval's ordering of the endpoints, the native
+   rebuild of Interval.__init__ (with fold=, so precise_diff sees each operand with its own offset), precise_diff (translated pure-Python
+   helper / hand model of the compiled one, shared with C06), the component properties, then `format`.  The correspondence run compares
+   components, invert and phrase with both backends on pairs of instants in one zone and in two zones (streams `instants`, `instants-xz`),
+   including a deterministic block of endpoints that are the second occurrence of a repeated wall time. *)
 
 (* the phrase is total whenever the difference exists; with the compiled helper it always exists *)
-Theorem diff_for_humans_total : forall L rs a b oa ob absolute ci, In L all_locales -> diff_comps rs a b oa ob = Ok ci ->
-  exists s, diff_for_humans L rs a b oa ob absolute = Ok s /\ s <> [] /\ brace_free s.
+Theorem diff_for_humans_total : forall L rs a b absolute ci, In L all_locales -> diff_comps rs a b = Ok ci ->
+  exists s, diff_for_humans L rs a b absolute = Ok s /\ s <> [] /\ brace_free s.
 Proof. exact diff_for_humans_total_lemma. Qed.
 Print Assumptions diff_for_humans_total.
 
-Theorem diff_for_humans_rs_total : forall L a b oa ob absolute, In L all_locales ->
-  exists s, diff_for_humans L true a b oa ob absolute = Ok s /\ s <> [] /\ brace_free s.
+Theorem diff_for_humans_rs_total : forall L a b absolute, In L all_locales ->
+  exists s, diff_for_humans L true a b absolute = Ok s /\ s <> [] /\ brace_free s.
 Proof. exact diff_for_humans_rs_total_lemma. Qed.
 Print Assumptions diff_for_humans_rs_total.
 
 (* direction.  "invert <-> the instance is the later instant" is REFUTED for two values that share one tzinfo object inside a repeated hour
-   (finding same-tzinfo-wall-order, listed for C05: `start > end` is evaluated on the wall clock) ... *)
-Theorem direction_wall_order_refuted : exists a b oa ob c,
-  p_instant b - p_instant a = 1800 * 1000000 /\ diff_comps false a b oa ob = Ok (c, true) /\ diff_comps true a b oa ob = Ok (c, true).
+   (finding same-tzinfo-wall-order, listed for C05: `start > end` is evaluated on the wall clock; precise_diff then receives the two
+   instants in the wrong order and the components are not those of the 30 minutes elapsed either) ... *)
+Theorem direction_wall_order_refuted : exists a b c1 c2,
+  p_instant b - p_instant a = 1800 * 1000000 /\ diff_comps false a b = Ok (c1, true) /\ diff_comps true a b = Ok (c2, true) /\
+  c1 <> mkcomp 0 0 0 0 0 30 0 /\ c2 <> mkcomp 0 0 0 0 0 30 0.
 Proof. exact diff_wall_order_refuted_lemma. Qed.
 Print Assumptions direction_wall_order_refuted.
 
 (* ... and holds for aware values with different tzinfo objects, or with equal offsets *)
-Theorem direction_follows_instants_partial : forall rs a b oa ob c inv,
+Theorem direction_follows_instants_partial : forall rs a b c inv,
   p_aware a = true -> p_aware b = true -> (p_tzobj a <> p_tzobj b \/ p_offset a = p_offset b) ->
-  diff_comps rs a b oa ob = Ok (c, inv) -> (inv = true <-> p_instant b < p_instant a).
+  diff_comps rs a b = Ok (c, inv) -> (inv = true <-> p_instant b < p_instant a).
 Proof. exact direction_follows_instants_partial_lemma. Qed.
 Print Assumptions direction_follows_instants_partial.
 
-(* magnitude.  "the components are those of the elapsed time" is REFUTED when an endpoint is the second occurrence of a repeated wall
-   time (finding interval-init-drops-fold: one hour elapsed, all components 0, both backends) ... *)
-Theorem diff_second_occurrence_refuted : exists a b oa ob,
-  p_instant b - p_instant a = 3600 * 1000000 /\
-  diff_comps false a b oa ob = Ok (mkcomp 0 0 0 0 0 0 0, false) /\ diff_comps true a b oa ob = Ok (mkcomp 0 0 0 0 0 0 0, false).
-Proof. exact diff_second_occurrence_refuted_lemma. Qed.
-Print Assumptions diff_second_occurrence_refuted.
-
-(* ... elsewhere (fold-0 offset = offset for both) precise_diff is handed the operands themselves *)
-Theorem diff_sees_operands_partial : forall rs a b,
-  diff_comps rs a b (p_offset a) (p_offset b) =
+(* magnitude.  precise_diff is handed the operands themselves — each with the offset its own fold selects — for EVERY pair, in particular
+   when an endpoint is the second occurrence of a repeated wall time (full strength since the repair of finding interval-init-drops-fold:
+   Interval.__init__ used to rebuild its natives without fold=, and this held only where the fold-0 offset was the offset) ... *)
+Theorem diff_sees_operands : forall rs a b,
+  diff_comps rs a b =
   (let inv := p_gtb a b in let s := if inv then b else a in let e := if inv then a else b in
    bind (pd_backend rs s e) (fun d =>
    let c := iv_components d (iv_elapsed s e) in
    Ok (mkcomp (iv_years c) (iv_months c) (iv_weeks c) (iv_remaining_days c) (iv_hours c) (iv_minutes c) (iv_remaining_seconds c), inv))).
-Proof. exact diff_sees_operands_partial_lemma. Qed.
-Print Assumptions diff_sees_operands_partial.
+Proof. exact diff_sees_operands_lemma. Qed.
+Print Assumptions diff_sees_operands.
 
-(* ... and with the compiled helper for cross-zone pairs whose manual UTC shift mis-carries (finding rs-cross-zone-shift, listed for C06):
-   one second elapsed, pure Python 1 second, compiled 1 hour -59 minutes 1 second *)
+(* ... the former witness of that finding (2012-10-28 00:30Z and, one hour later, the SECOND 02:30 in Europe/Paris): one hour with both
+   backends and in both directions (every component was 0), while the FIRST 02:30 is the instant of 00:30Z itself *)
+Theorem diff_second_occurrence :
+  let a := w_utc_0030 in let b := w_paris_0230_second in
+  p_instant b - p_instant a = 3600 * 1000000 /\
+  diff_comps false a b = Ok (mkcomp 0 0 0 0 1 0 0, false) /\
+  diff_comps true a b = Ok (mkcomp 0 0 0 0 1 0 0, false) /\
+  diff_comps false b a = Ok (mkcomp 0 0 0 0 1 0 0, true) /\
+  diff_comps true b a = Ok (mkcomp 0 0 0 0 1 0 0, true) /\
+  diff_comps false a w_paris_0230_first = Ok (mkcomp 0 0 0 0 0 0 0, false).
+Proof. exact second_occurrence_witness. Qed.
+Print Assumptions diff_second_occurrence.
+
+(* ... magnitude is still REFUTED with the compiled helper for cross-zone pairs whose manual UTC shift mis-carries (finding rs-cross-zone-shift,
+   listed for C06): one second elapsed, pure Python 1 second, compiled 1 hour -59 minutes 1 second *)
 Theorem diff_rs_cross_zone_refuted : exists a b,
   p_instant b - p_instant a = 1000000 /\
-  diff_comps false a b (p_offset a) (p_offset b) = Ok (mkcomp 0 0 0 0 0 0 1, false) /\
-  diff_comps true a b (p_offset a) (p_offset b) = Ok (mkcomp 0 0 0 0 1 (-59) 1, false).
+  diff_comps false a b = Ok (mkcomp 0 0 0 0 0 0 1, false) /\
+  diff_comps true a b = Ok (mkcomp 0 0 0 0 1 (-59) 1, false).
 Proof. exact diff_rs_cross_zone_refuted_lemma. Qed.
 Print Assumptions diff_rs_cross_zone_refuted.
 
@@ -219,7 +229,7 @@ Print Assumptions diff_rs_cross_zone_refuted.
    The difference is computed by the translated precise_diff (characterised in C06), the Interval glue and the translated unit selection:
    the count of the phrase is within one unit of the TRUE elapsed time (whole seconds), and 'a few seconds' is said only for at most 10 s *)
 Theorem within_one_unit_true_elapsed : forall a b, dt_pair a b -> 0 < p_wall b - p_wall a < us_per_day ->
-  exists c, diff_comps false a b 0 0 = Ok (c, false) /\
+  exists c, diff_comps false a b = Ok (c, false) /\
     match gen_pick c with
     | Some (u, n) => Z.abs (n * unit_seconds u - (p_wall b - p_wall a) / 1000000) < unit_seconds u
     | None => (p_wall b - p_wall a) / 1000000 <= 10
@@ -229,7 +239,7 @@ Print Assumptions within_one_unit_true_elapsed.
 
 (* the same with the compiled helper (hand model; equal to the pure-Python one on this domain by C06's pd_rust_eq_python) *)
 Theorem within_one_unit_true_elapsed_rs : forall a b, dt_pair a b -> 1 <= p_year a -> 0 < p_wall b - p_wall a < us_per_day ->
-  exists c, diff_comps true a b 0 0 = Ok (c, false) /\
+  exists c, diff_comps true a b = Ok (c, false) /\
     match gen_pick c with
     | Some (u, n) => Z.abs (n * unit_seconds u - (p_wall b - p_wall a) / 1000000) < unit_seconds u
     | None => (p_wall b - p_wall a) / 1000000 <= 10
